@@ -7,6 +7,7 @@ import (
 	"runtime/debug"
 	"strings"
 
+	"astverif/layout"
 	"astverif/load"
 	"astverif/report"
 )
@@ -57,6 +58,7 @@ func Run(id, tier, only string) (code int) {
 	}
 	c := &Ctx{P: p, R: r, Tier: tier}
 	e.run(c)
+	layout.SpecWidthRule(r)
 	if os.Getenv("VERIF_SELFTEST") != "0" && tier == "thorough" {
 		st := SelfTest(id, false)
 		r.Extra["selftest_variants"] = st
@@ -70,6 +72,7 @@ func Run(id, tier, only string) (code int) {
 		}
 		r32 := report.New(id, tier, e.level)
 		e.run(&Ctx{P: p32, R: r32, Tier: tier})
+		layout.SpecWidthRule(r32)
 		for _, o := range r32.Obls {
 			o.Key = "386:" + strings.TrimPrefix(o.Key, o.Rule+"/")
 			switch o.Status {
@@ -108,5 +111,6 @@ func RunOn(p *load.Program, id, tier string) (r *report.Report, err error) {
 		}
 	}()
 	e.run(&Ctx{P: p, R: r, Tier: tier})
+	layout.SpecWidthRule(r)
 	return r, nil
 }
